@@ -431,6 +431,10 @@ pub struct Report<'a> {
 }
 
 pub fn write_evidence(rep: &Report, o: &Outcome) {
+    if std::env::var("PTV_NO_EVIDENCE").is_ok() {
+        // experiments against deliberately broken trees must not overwrite the evidence of the real tree
+        return;
+    }
     let mut cov = serde_json::Map::new();
     cov.insert("evaluations".into(), (o.evaluations.max(o.sub_evaluations)).into());
     cov.insert("cases".into(), o.evaluations.into());
